@@ -392,6 +392,52 @@ func c12(r *Report) {
 			if e.Fn == nil {
 				continue
 			}
+			// completeness: a parser that wires one side of a branch wires the other side too, and the
+			// else-branch is wired for every non-empty "else" child (a one-byte child is for parse.FromJSON
+			// to reject, not for the parser to ignore)
+			wired := map[string]map[string]bool{}
+			var firstSetter ssa.CallInstruction
+			for _, c := range calls(e.Fn) {
+				callee := c.Common().StaticCallee()
+				if callee == nil || callee.Signature.Recv() == nil || len(c.Common().Args) != 2 {
+					continue
+				}
+				sb, isSetter := setters[callee.Name()]
+				if !isSetter || !strings.Contains(callee.Signature.Recv().Type().String(), "Filter") {
+					continue
+				}
+				if wired[sb[1]] == nil {
+					wired[sb[1]] = map[string]bool{}
+				}
+				wired[sb[1]][sb[0]] = true
+				if firstSetter == nil {
+					firstSetter = c
+				}
+				if sb[1] == "false" {
+					isLenV := func(v ssa.Value) bool {
+						cc, isC := v.(*ssa.Call)
+						if !isC {
+							return false
+						}
+						bi, isB := cc.Call.Value.(*ssa.Builtin)
+						return isB && bi.Name() == "len"
+					}
+					for _, ce := range ctrlEdges(c.Block()) {
+						if rel, adm := constCmpAdmits(ce, isLenV, 1); rel {
+							_, adm0 := constCmpAdmits(ce, isLenV, 0)
+							r.Decide("guard", fmt.Sprintf("else-branch guard in the parser of %s: %s", e.Name, site(e.Fn, c)), adm && !adm0, "the length test admits exactly the non-empty children", "the length test before wiring the else-branch excludes a one-byte \"else\" child (a malformed child is ignored instead of rejecting the configuration) or admits an absent one (a filter without an else-branch is rejected)", ce.If.Pos())
+						}
+					}
+				}
+			}
+			if firstSetter != nil {
+				for _, br := range []string{"true", "false"} {
+					if wired[br] == nil {
+						continue
+					}
+					r.Decide("sibling", fmt.Sprintf("the parser of %s wires both sides of the %s branch", e.Name, br), wired[br]["request"] && wired[br]["response"], "request and response setters both called", fmt.Sprintf("only %v of the %s branch is wired: the filter's modifier never runs on the other message kind its scope names", keys(wired[br]), br), firstSetter.Pos())
+				}
+			}
 			for _, c := range calls(e.Fn) {
 				callee := c.Common().StaticCallee()
 				if callee == nil {
